@@ -112,8 +112,16 @@ class FieldMetadata:
                 f'{self.field_type}; use corresponding Numpy type instead.'
             )
 
-        # The NetCD4 package handles Python strings as a special case.
+        # The NetCD4 package handles Python strings as a special case. There
+        # is no variable-length array type for strings, so string fields can
+        # only hold one value per trajectory (or per species): refuse per-point
+        # string fields here rather than failing when they are saved.
         if self.field_type is str:
+            if Dimension.POINT in self.dimensions:
+                raise ValueError(
+                    'FieldMetadata: fields of type str cannot have a point '
+                    'dimension (per-point strings cannot be stored)'
+                )
             return
 
         # Otherwise, check that we have a valid scalar Numpy dtype.
